@@ -1,6 +1,7 @@
 package props
 
 import (
+	"encoding/base64"
 	"fmt"
 	"net/url"
 	"sort"
@@ -218,3 +219,7 @@ func finishCapped(run *ev.Run, complete bool, bound string) {
 
 var _ = msg.BindPost
 var _ = fmt.Sprint
+
+func b64dec(s string) ([]byte, error) {
+	return base64.StdEncoding.DecodeString(s)
+}
